@@ -193,7 +193,9 @@ func runC09(c *Ctx) {
 	r.Rule("R09-negate", "Negate maps Lost<->Won, Heur(p)->Heur(-p), Mate(k)->Mate(-k), is an involution, and Less(a,b) == Less(Negate b, Negate a) in every region", 5+5+31)
 	r.Rule("R09-incr", "IncrementMateDistance maps Won->Mate(+1), Lost->Mate(-1), Mate(k)->Mate(k away from 0 by 1), Heur unchanged; Less(Inc a, Inc b) == Less(a,b) in every region; MateDistance = |k| / 0 / none", 5+31+5)
 	r.Rule("R09-maxmin", "Max/Min return the argument selected by the spec order in every region", 62)
+	r.Rule("R09-decr", "DecrementMateDistance is the inverse of IncrementMateDistance: Dec(Inc(x)) = x for every score, Inc(Dec(x)) = x for heuristic and mate scores (it translates window bounds into a child's frame, see R03-window)", 10)
 	c09Run(c)
+	c.guard("R09-decr", func() { c09Decr(c, "R09-decr") })
 }
 
 // c09Run decides the score algebra (also re-decided by C03, whose equality with minimax rests on it).
@@ -429,4 +431,84 @@ func c09Run(c *Ctx) {
 			r.Check(okAll, "R09-maxmin", cons, where(f), reg.String(), detail)
 		}
 	}
+}
+
+// c09Decr: DecrementMateDistance and IncrementMateDistance are mutually inverse.
+func c09Decr(c *Ctx, rule string) {
+	r := c.R
+	scoreN := c.P.NamedType("pkg/eval", "Score")
+	inc := c.find("pkg/eval", "", "IncrementMateDistance")
+	dec := c.find("pkg/eval", "", "DecrementMateDistance")
+	if scoreN == nil || inc == nil || dec == nil {
+		r.Undecided(rule, "anchor:eval.DecrementMateDistance", "", "", "not found")
+		return
+	}
+	stt := scoreN.Underlying().(*types.Struct)
+	e := &c09env{c: c, in: newInterp(c.P), scoreT: scoreN, typeT: stt.Field(0).Type(), mateT: stt.Field(1).Type(), pawnsT: stt.Field(2).Type()}
+	e.tyHeur, _ = constVal(c.P, "pkg/eval", "Heuristic")
+	e.tyMate, _ = constVal(c.P, "pkg/eval", "MateInX")
+	e.tyInf, _ = constVal(c.P, "pkg/eval", "Inf")
+	e.tyNegInf, _ = constVal(c.P, "pkg/eval", "NegInf")
+	cmp := func(op token.Token, k absint.Value, n int64) absint.Value {
+		return absint.BinOp(op, k, absint.MkInt(n, e.mateT), types.Typ[types.Bool])
+	}
+	type seed struct {
+		name string
+		kind scoreKind
+		fact func(st *absint.State, k absint.Value)
+	}
+	same := func(st *absint.State, v, x absint.Value) bool {
+		if absint.Equal(v, x) {
+			return true
+		}
+		vs, ok1 := v.(*absint.Struct)
+		xs, ok2 := x.(*absint.Struct)
+		if !ok1 || !ok2 || len(vs.F) != len(xs.F) {
+			return false
+		}
+		for i := range vs.F {
+			if absint.Equal(vs.F[i], xs.F[i]) {
+				continue
+			}
+			if eq, known := absint.Decide(st, absint.BinOp(token.EQL, vs.F[i], xs.F[i], types.Typ[types.Bool])); !known || !eq {
+				return false
+			}
+		}
+		return true
+	}
+	run := func(what string, fns []*ssa.Function, seeds []seed) {
+		for _, sd := range seeds {
+			st := absint.NewState()
+			x := e.mk(sd.kind, 1)
+			if sd.fact != nil {
+				sd.fact(st, x.(*absint.Struct).F[1])
+			}
+			v := x
+			why := ""
+			for _, f := range fns {
+				var st2 *absint.State
+				v, st2, why = e.evalOne(f, st, v)
+				if why != "" {
+					break
+				}
+				st = st2
+			}
+			cons := what + "|" + sd.name
+			if why != "" {
+				r.Undecided(rule, cons, c.pos(dec.Pos()), sd.name, why)
+				continue
+			}
+			r.Check(same(st, v, x), rule, cons, c.pos(dec.Pos()), sd.name, fmt.Sprintf("%s maps %s to %s", what, vstrOf(x), vstrOf(v)))
+		}
+	}
+	neg := func(st *absint.State, k absint.Value) { absint.Assume(st, cmp(token.LSS, k, 0), true) }
+	pos := func(st *absint.State, k absint.Value) { absint.Assume(st, cmp(token.GTR, k, 0), true) }
+	run("Dec(Inc(x)) = x", []*ssa.Function{inc, dec}, []seed{{"Lost", skLost, nil}, {"Won", skWon, nil}, {"heuristic", skHeur, nil}, {"mate k<0", skMateNeg, neg}, {"mate k>0", skMatePos, pos}})
+	run("Inc(Dec(x)) = x", []*ssa.Function{dec, inc}, []seed{
+		{"heuristic", skHeur, nil},
+		{"mate k<=-2", skMateNeg, func(st *absint.State, k absint.Value) { absint.Assume(st, cmp(token.LSS, k, -1), true) }},
+		{"mate k=-1", skMateNeg, func(st *absint.State, k absint.Value) { absint.Assume(st, cmp(token.EQL, k, -1), true) }},
+		{"mate k=1", skMatePos, func(st *absint.State, k absint.Value) { absint.Assume(st, cmp(token.EQL, k, 1), true) }},
+		{"mate k>=2", skMatePos, func(st *absint.State, k absint.Value) { absint.Assume(st, cmp(token.GTR, k, 1), true) }},
+	})
 }
